@@ -78,6 +78,65 @@ def rand_history(rng, length, nregs):
     return ops
 
 
+def fanin_history(rng):
+    """a destination with 17..40 incoming edges whose origins were NOT added in id order (descending, shuffled, one
+    out of place, removed and re-added), then existing edges added again, weights set, origins removed, the clone taken
+    before compared by diff, predecessor / neighbour queries.  Register 0 = the graph, register 1 = the clone."""
+    k = rng.randrange(17, 41)
+    n = k + 1 + rng.choice([0, 0, 1, 3])
+    ops = [[2, 0, rng.choice([0, 1, 7, 7, -1])] for _ in range(n)]
+    dest = rng.choice([0, n - 1, rng.randrange(n)])
+    others = [i for i in range(n) if i != dest]
+    origins = sorted(rng.sample(others, k - 1) + [dest] if rng.random() < 0.25 else rng.sample(others, k))   # now and then a self-loop
+    order = rng.random()
+    if order < 0.4: origins.reverse()                                    # newest node first
+    elif order < 0.75: rng.shuffle(origins)
+    elif order < 0.9:                                                    # ascending with one origin out of place
+        x = origins.pop(rng.randrange(k)); origins.insert(rng.randrange(k), x)
+    # else: ascending
+    wpool = [w for w in WEIGHTS if w != F_NAN] if rng.random() < 0.85 else WEIGHTS   # a NaN weight differs from itself
+    w = lambda: rng.choice(wpool)
+    ops += [[4, 0, o, dest, w()] for o in origins]
+    if rng.random() < 0.3:          # a second destination with a small fan-in, sharing origins
+        d2 = rng.choice(others)
+        ops += [[4, 0, o, d2, w()] for o in rng.sample(origins, rng.randrange(1, 6))]
+    if rng.random() < 0.3:          # reorder by remove_edge + add_edge
+        for o in rng.sample(origins, rng.randrange(1, 4)):
+            ops += [[5, 0, o, dest], [4, 0, o, dest, w()]]
+            origins.remove(o); origins.append(o)
+    readout = lambda: [[11, 0], [14, 0, dest, []], [13, 1, 0], [13, 0, 1]]
+    ops += [[1, 0, 1], [10, 0]] + readout()
+    # every kind of existing edge is added again: first / last inserted, highest / lowest id, random ones, all
+    live = list(origins)
+    again = {0: [live[0]], 1: [live[-1]], 2: [max(live)], 3: [min(live)], 4: rng.sample(live, 3), 5: list(live)}[rng.randrange(6)]
+    for o in again:
+        ops.append([4, 0, o, dest, w()])
+    ops += readout()
+    for _ in range(rng.randrange(8, 25)):
+        if not live: break
+        o = rng.choice(live)
+        t = rng.choice(["again", "again", "again", "setw", "setw", "getw", "rmnode", "rmnode", "rmedge", "preds", "succs", "neigh", "size", "diff", "addnode"])
+        if t == "again": ops.append([4, 0, o, dest, w()])
+        elif t == "setw": ops += [[9, 0, o, dest, w()], [8, 0, o, dest]]
+        elif t == "getw": ops.append([8, 0, o, dest])
+        elif t == "rmnode":
+            ops += [[3, 0, o], [11, 0], [14, 0, dest, []]]
+            live.remove(o)
+            if o == dest: live = []
+        elif t == "rmedge":
+            ops += [[5, 0, o, dest], [11, 0], [8, 0, o, dest]]
+            live.remove(o)
+        elif t == "preds": ops.append([14, 0, dest, rng.choice([[], [7], [0, 1], [7, 7]])])
+        elif t == "succs": ops.append([15, 0, o, []])
+        elif t == "neigh": ops.append([16, 0, rng.choice([dest, o]), rng.choice([[], [7]])])
+        elif t == "size": ops += [[10, 0], [11, 0]]
+        elif t == "diff": ops += [[13, 1, 0], [13, 0, 1]]
+        else:
+            ops += [[2, 0, 7], [4, 0, n, dest, w()]]; live.append(n); n += 1
+    ops += [[10, 0]] + readout() + [[16, 0, dest, []], [10, 1], [11, 1]]
+    return ops
+
+
 def api_streams(seed, tier):
     rng = random.Random(seed)
     out = []
@@ -98,6 +157,14 @@ def api_streams(seed, tier):
     cases = [sx_str([k % 2, 3, rand_history(rng, 100, 3) + observe([0, 1, 2])]) for k in range(n)]
     out.append(Stream("random100", "graph", "graph.check", cases,
                       "random histories of 100 operations over 3 graph registers (clone / diff between registers), up to 9 nodes, valid / stale / never-issued ids, weights from a pool incl. 0.0, -0.0, NaN, +-inf, subnormal"))
+    # (d) large fan-in: the incoming-edge list of one destination holds 17..40 edges in non-id order
+    n = {"quick": 200, "thorough": 3000, "search": 3000}[tier]
+    frng = random.Random(seed + 18)
+    cases = [sx_str([k % 2, 2, fanin_history(frng)]) for k in range(n)]
+    out.append(Stream("fan-in17..40", "graph", "graph.check", cases,
+                      "graphs of 18..44 nodes in which one destination has 17..40 incoming edges inserted in descending / shuffled / nearly ascending / ascending origin-id order (now and then a self-loop, a second destination, "
+                      "remove_edge + add_edge reordering); then existing edges are added again (first / last inserted, highest / lowest id, random, all), weights set and read, origins and edges removed, nodes added, "
+                      "with edge counts, predecessors, successors, neighbours and the diff against the clone taken before read after each step"))
     return out
 
 
@@ -107,7 +174,7 @@ LEVEL_TEXT = ("API and instruction level. Machine-checked theorems over the Gall
               "C18_graph_inv (after every history from empty graphs every edge joins two existing nodes, no destination list holds two edges from one origin, no duplicate node or destination keys), "
               "C18_graph_refines_spec (counts, states, weights, filter / predecessor / successor / neighbour results equal those of a set-based graph along every history), "
               "C18_clone_is_snapshot, C18_diff_empty_iff_same (diff is None exactly when nodes, states, edges agree and weights are IEEE-== equal; a NaN weight differs from itself), C18_pred_succ_neighbour_sets. "
-              "The model is tied to the code by running all short histories and long random histories on the real Graph and on the extracted model, and by evaluating the set-based specification and the invariant on the implementation's own outputs and final contents."
+              "The model is tied to the code by running all short histories, long random histories and histories on graphs with a fan-in of 17..40 (edges inserted out of id order, existing edges added again) on the real Graph and on the extracted model, and by evaluating the set-based specification and the invariant on the implementation's own outputs and final contents."
               " Instruction level (Props/C18i.v): GRAPH.DUP snapshots are never altered by later GRAPH.* programs, the HISTORY instructions read exactly the k-th newest snapshot, stale / negative / huge ids only consume operands, every GRAPH.* name applies the corresponding API function with the documented operand order, and the structural invariant is preserved by every instruction and every GRAPH.* program; tied by single-step, program and DUP-depth (up to 101) streams on the real interpreter, HashMap-ordered results compared as sets.")
 LEVEL_NOTE = "API and instruction level only in this part. Trusted: Coq kernel, extraction (ExtrOcamlBasic), ocaml/driver.ml, the Rust harness (incl. its strict parser of the diff text and the id renaming) and generators; Flocq's binary32 comparison instantiates f32 `==` in the extracted model only (theorems are parametric in FloatOps and closed under the global context). Behaviour outside the generated histories is tied only by the proof-to-model link."
 
